@@ -110,7 +110,7 @@ def recipe(c: Check):
     if c.run_driver("dgram", q(c.tier, 200, 6000), shards=q(c.tier, 2, 8)):
         need_counters(c, "dgram", ["NDGSHORT", "NDGFRAMEERR", "NDGJSONERR", "NDGOK"])
     # authenticated Logins with extreme integers as first message, against a frps in a child process
-    if c.run_driver("loginx", q(c.tier, 6, 150), shards=1):
+    if c.run_driver("loginx", q(c.tier, 2, 150), shards=1):
         need_counters(c, "loginx", ["NLOGINX", "NBELOWSLACK"])
     ocaml_volume(c, q(c.tier, 4000, 200000))
     return c.finish(
